@@ -185,10 +185,12 @@ class LogTanh(Fam):
     name = "logtanh"
 
     def sample_cfg(self, rng, tier):
-        return {"fam": self.name, "shape": _anyshape(rng), "cut": float(rng.choice([0.5, 1.0, 2.0, 3.5]))}
+        return {"fam": self.name, "shape": _anyshape(rng), "cut": float(rng.choice([0.5, 1.0, 2.0, 3.5, 8.0]))}
 
     def must(self):
-        return [{"fam": self.name, "shape": [3], "cut": 1.0}, {"fam": self.name, "shape": [2, 2, 2], "cut": 0.5}]
+        # cut points of 8 and 10: the tanh branch reaches inputs where 1 - tanh(x)^2 is far below the float32 epsilon
+        return [{"fam": self.name, "shape": [3], "cut": 1.0}, {"fam": self.name, "shape": [2, 2, 2], "cut": 0.5},
+                {"fam": self.name, "shape": [2], "cut": 10.0}, {"fam": self.name, "shape": [4], "cut": 8.0}]
 
     def build(self, cfg):
         from nflows import transforms as T
@@ -201,7 +203,8 @@ class LogTanh(Fam):
         alpha = (1 - math.tanh(math.tanh(c))) / c
         ymax = math.tanh(c) + alpha * math.log(50.0 / c)
         return _meta(cfg["shape"], ("Rb", 50.0), ("Rb", ymax),
-                     special=[0.0, c, -c, c * (1 + 1e-9), -c * (1 + 1e-9), 10 * c, -10 * c], tags=["kink"])
+                     special=[0.0, c, -c, c * (1 + 1e-9), -c * (1 + 1e-9), 10 * c, -10 * c, 0.8 * c, -0.9 * c, 0.95 * c, -0.99 * c],
+                     tags=["kink"])
 
 
 @reg
@@ -209,10 +212,12 @@ class LeakyReLU(Fam):
     name = "leakyrelu"
 
     def sample_cfg(self, rng, tier):
-        return {"fam": self.name, "shape": _anyshape(rng), "slope": float(rng.choice([0.01, 0.3, 2.0]))}
+        return {"fam": self.name, "shape": _anyshape(rng), "slope": float(rng.choice([0.01, 0.3, 2.0, 2.5]))}
 
     def must(self):
-        return [{"fam": self.name, "shape": [3], "slope": 0.01}, {"fam": self.name, "shape": [2, 2, 2], "slope": 0.3}]
+        # slopes above one are legal (the constructor asks for a positive slope only)
+        return [{"fam": self.name, "shape": [3], "slope": 0.01}, {"fam": self.name, "shape": [2, 2, 2], "slope": 0.3},
+                {"fam": self.name, "shape": [2], "slope": 2.5}]
 
     def build(self, cfg):
         from nflows import transforms as T
